@@ -3,7 +3,10 @@
 //   keys for the greater variants are mirrored (100 - k) so the abstract order is the same
 #include <common/ndjson.hpp>
 #include <common/tracked.hpp>
+// (the implementation-level comparison with SplayI needs the node structure; SplayTree has no accessor for its root)
+#define private public
 #include <tlx/container/splay_tree.hpp>
+#undef private
 #include <fstream>
 #include <memory>
 using namespace vf;
@@ -25,6 +28,13 @@ template <class T> struct CountAlloc {
 };
 
 static const char* NAMES[] = {"insert", "erase", "exists", "find", "clear"};
+static long long un_key(const Tracked& k, bool) { return k.read(); }
+static long long un_key(const int& k, bool mirror) { return mirror ? 100 - k : k; }
+// nested [key, left, right] lists, [] for a null pointer
+template <class K, class Node> static std::string shape(const Node* n, bool mirror, int depth = 0) {
+    if (!n || depth > 200) return "[]";
+    return "[" + std::to_string(un_key(n->key, mirror)) + "," + shape<K>(n->left, mirror, depth + 1) + "," + shape<K>(n->right, mirror, depth + 1) + "]";
+}
 struct TLess { bool operator()(const Tracked& a, const Tracked& b) const { return a < b; } };
 
 template <class K> K mk(long long k, bool mirror);
@@ -50,6 +60,7 @@ static void run(Out& out, int variant, bool dup, bool mirror, std::istringstream
                       ",\"check\":" + (chk ? "true" : "false") + "}");
         ev.num("blocks", g_blocks).num("lerr", ledger().nerr + g_alloc_err + (alive ? 0 : (long long)ledger().live.size()));
         ev.num("variant", variant);
+        if (alive && !mirror) ev.raw("shape", shape<K>(t->root_, mirror));      // (mirrored keys build the mirrored tree: compared for the less variants only)
         ev.emit(out);
     };
     { Ev ev("reset"); ev.boolean("dup", dup); emit(ev, true); }
